@@ -220,18 +220,25 @@ def acl_scan(
     p2: bool, m2: bool, a2: bool,
     p3: bool, m3: bool, a3: bool,
     p4: bool, m4: bool, a4: bool,
+    late: bool,
     n_slots: int = 3,
     max_rules: int = 25,
     spread: bool = False,
 ):
-    """L3a: is_permitted returns the action of the lowest present matching slot, else implicit; counts one hit."""
+    """L3a: is_permitted returns the action of the lowest present matching slot, else implicit; counts one hit.
+    `late`: the list's implicit action is assigned after construction (the list was built with the opposite one)."""
     import primaite.simulator.network.hardware.nodes.network.router as R
 
     pres = [p0, p1, p2, p3, p4][:n_slots]
     mat = [m0, m1, m2, m3, m4][:n_slots]
     act = [a0, a1, a2, a3, a4][:n_slots]
+    implicit_permit = True if implicit_permit else False
+    late = True if late else False
     with concrete():
-        acl = _mk_acl(max_rules, implicit_permit)
+        acl = _mk_acl(max_rules, (not implicit_permit) if late else implicit_permit)
+        if late:
+            acl.implicit_action = R.ACLAction.PERMIT if implicit_permit else R.ACLAction.DENY
+            cover("late_implicit")
         frame = _mk_frame("tcp")
         nslots_real = len(acl._acl)
         # positions used: the first n_slots, or spread over the list incl. position 0 and the last slot
@@ -261,7 +268,7 @@ def acl_scan(
     if decided is None:
         cover("implicit")
         check(rule is acl.implicit_rule, "no rule matched but the deciding rule is not the implicit rule")
-        check(bool(permitted) == implicit_permit, "implicit action not applied")
+        check(bool(permitted) == implicit_permit, lambda: "implicit action not applied" + (" (it was assigned after the list was constructed)" if late else ""))
         check(acl.implicit_rule.match_count == imp_before + 1, "implicit rule hit counter not incremented by one")
     else:
         cover("explicit")
@@ -404,7 +411,7 @@ HARNESSES = {
             for ip in (False, True)
         ]
         + [{"fixed": {"n_slots": 3, "max_rules": 4, "spread": True}, "timeout": 600}],
-        "cover": ["implicit", "explicit"],
+        "cover": ["implicit", "explicit", "late_implicit"],
         "bounds": {"quick": "3 slots (adjacent, and spread incl. position 0 and the last slot)", "thorough": "5 slots; lists of 25 and 4"},
     },
     "acl_edit": {
